@@ -109,3 +109,96 @@ Print Assumptions C13_TTML.C13_ttml_regions_exact.
 Print Assumptions C13_TTML.C13_ttml_idempotent.
 Print Assumptions C13_TTML.C13_ttml_repr.
 Print Assumptions C13_TTML.C13_ttml_write_read.
+
+(* ---- audit follow-ups (Proofs/OpsOptimizeExtra.v) ---- *)
+From Astisub Require Import Proofs.OpsOptimizeExtra.
+
+(* The model resolves references by identifier (first definition with that ID), the library follows pointers.  Under
+   [wf_refs] - every identifier referred to is defined and definition IDs are pairwise distinct - an identifier has
+   exactly one definition, so the two readings coincide; the exact characterisation restated with a reachability that
+   does not depend on "first match" ([declared_parent]: SOME definition with ID c names p as its parent). *)
+Theorem C13_styles_exact_wf : forall s kv, wf_refs s -> items s <> [] ->
+  In kv (map_or_empty (styles (optimize s))) <-> In kv (map_or_empty (styles s)) /\ reach_style_decl s (s_id (snd kv)).
+Proof. exact optimize_styles_exact_wf. Qed.
+Theorem C13_regions_exact_wf : forall s kv, wf_refs s -> items s <> [] ->
+  In kv (map_or_empty (regions (optimize s))) <-> In kv (map_or_empty (regions s)) /\ reach_region s (g_id (snd kv)).
+Proof. exact optimize_regions_exact_wf. Qed.
+Theorem C13_reach_readings_agree : forall s id, wf_refs s -> (reach_style s id <-> reach_style_decl s id).
+Proof. exact reach_style_decl_iff. Qed.
+(* every reference resolves to exactly one definition; two definitions with the same ID are excluded by [wf_refs] *)
+Theorem C13_wf_resolves : forall s, wf_refs s -> forall id, defined_style s id ->
+  exists kv, In kv (map_or_empty (styles s)) /\ s_id (snd kv) = id /\
+             forall kv', In kv' (map_or_empty (styles s)) -> s_id (snd kv') = id -> kv' = kv.
+Proof. exact wf_refs_resolves. Qed.
+Theorem C13_wf_excludes_duplicate_ids : forall s, wf_refs s ->
+  forall kv kv', In kv (map_or_empty (styles s)) -> In kv' (map_or_empty (styles s)) ->
+    s_id (snd kv) = s_id (snd kv') -> kv = kv'.
+Proof. exact wf_refs_unique_definition. Qed.
+(* without the hypothesis, one inclusion: whatever is kept is reachable through declared parents *)
+Theorem C13_styles_sound_any : forall s kv, items s <> [] ->
+  In kv (map_or_empty (styles (optimize s))) -> In kv (map_or_empty (styles s)) /\ reach_style_decl s (s_id (snd kv)).
+Proof. exact optimize_styles_sound_any. Qed.
+(* map key <> definition ID (IDs distinct) is inside [wf_refs]: definitions are handled by their ID, keys play no role *)
+Example C13_key_differs_from_id : wf_refs ex_keys /\
+  map_or_empty (styles (optimize ex_keys)) = [(9, mkStyle 3 (Some 1) false); (1, mkStyle 1 None false); (2, mkStyle 2 None false)]%N /\
+  map_or_empty (regions (optimize ex_keys)) = [(8, mkRegion 0 (Some 2) false)]%N.
+Proof. split; [exact ex_keys_wf | exact ex_keys_result]. Qed.
+(* two definitions with ID 3 and different parents: the model follows the first in the list (the library: the object
+   pointed to), so the answer depends on the order - not claimed, and outside [wf_refs] *)
+Example C13_duplicate_ids_outside : (forall p q, ~ wf_refs (ex_dup p q)) /\
+  map fst (map_or_empty (styles (optimize (ex_dup 1 2)))) = [3; 4; 1]%N /\
+  map fst (map_or_empty (styles (optimize (ex_dup 2 1)))) = [3; 4; 2]%N.
+Proof. split; [exact ex_dup_not_wf | exact ex_dup_order_matters]. Qed.
+
+(* RemoveStyling, as the property words it, one fact at a time *)
+Theorem C13_rs_no_definitions : forall s, regions (remove_styling s) = Some [] /\ styles (remove_styling s) = Some [].
+Proof. exact rs_no_definitions. Qed.
+Theorem C13_rs_no_cue_styling : forall s,
+  Forall (fun x => i_reg x = None /\ i_sty x = None /\ i_inl x = false) (items (remove_styling s)).
+Proof. exact rs_no_cue_styling. Qed.
+Theorem C13_rs_no_run_styling : forall s x l r,
+  In x (items (remove_styling s)) -> In l (i_lines x) -> In r (l_runs l) -> r_sty r = None /\ r_inl r = false.
+Proof. exact rs_no_run_styling. Qed.
+Theorem C13_rs_no_references : forall s,
+  flat_map item_style_refs (items (remove_styling s)) = [] /\ used_regions (items (remove_styling s)) = [].
+Proof. exact rs_no_references. Qed.
+Theorem C13_rs_timing : forall s,
+  map (fun x => (st x, en x)) (items (remove_styling s)) = map (fun x => (st x, en x)) (items s).
+Proof. exact rs_timing. Qed.
+Theorem C13_rs_order : forall s,
+  length (items (remove_styling s)) = length (items s) /\ map uid (items (remove_styling s)) = map uid (items s).
+Proof. exact rs_order. Qed.
+Theorem C13_rs_text : forall s,
+  map item_text (items (remove_styling s)) = map item_text (items s) /\
+  map (fun x => map (fun l => map r_text (l_runs l)) (i_lines x)) (items (remove_styling s)) =
+  map (fun x => map (fun l => map r_text (l_runs l)) (i_lines x)) (items s).
+Proof. exact rs_text. Qed.
+Theorem C13_rs_voices : forall s,
+  map (fun x => map l_voice (i_lines x)) (items (remove_styling s)) = map (fun x => map l_voice (i_lines x)) (items s).
+Proof. exact rs_voices. Qed.
+Theorem C13_rs_idempotent : forall s, remove_styling (remove_styling s) = remove_styling s.
+Proof. exact rs_idempotent. Qed.
+(* non-vacuity: two cues out of start order with region, cue style, inline attributes, styled runs, voices *)
+Example C13_rs_example :
+  remove_styling ex_styled =
+  mkSubs [mkItem 7 50 90 [mkLine [mkRun [72; 105] None false; mkRun [33] None false] [66; 111; 98]] None None false;
+          mkItem 8 10 30 [mkLine [mkRun [65] None false] []; mkLine [mkRun [66] None false] [65; 108]] None None false]%N%Z
+         (Some []) (Some []) /\
+  flat_map item_style_refs (items ex_styled) = [1; 3; 1]%N /\ used_regions (items ex_styled) = [0]%N.
+Proof. split; [exact ex_styled_result | apply ex_styled_text]. Qed.
+
+Print Assumptions C13_styles_exact_wf.
+Print Assumptions C13_regions_exact_wf.
+Print Assumptions C13_reach_readings_agree.
+Print Assumptions C13_wf_resolves.
+Print Assumptions C13_wf_excludes_duplicate_ids.
+Print Assumptions C13_styles_sound_any.
+Print Assumptions C13_rs_no_definitions.
+Print Assumptions C13_rs_no_cue_styling.
+Print Assumptions C13_rs_no_run_styling.
+Print Assumptions C13_rs_no_references.
+Print Assumptions C13_rs_timing.
+Print Assumptions C13_rs_order.
+Print Assumptions C13_rs_text.
+Print Assumptions C13_rs_voices.
+Print Assumptions C13_rs_idempotent.
